@@ -52,6 +52,11 @@ pub enum Kind {
     /// the server's accept of this connection fails with ECONNABORTED (injected): it never holds a
     /// slot and is never served
     Aborted,
+    /// its GET is held inside the store call (on the blocking pool) until a Finish event: the handler
+    /// notices nothing, not even that its client has gone, before the command returns
+    Busy,
+    /// GET of an 8 MiB value by a client that never reads: the handler is stuck writing the reply
+    BigGet,
 }
 #[derive(Clone, Copy, Debug, PartialEq, Eq, Hash)]
 pub enum CEv {
@@ -62,6 +67,8 @@ pub enum CEv {
     /// backlog is later accepted as a dead socket (getpeername fails on it, reads fail after the
     /// bytes received before the reset)
     Reset(usize),
+    /// let the held command of the i-th accepted, unfinished Busy connection return
+    Finish(usize),
 }
 
 #[derive(Clone, Debug)]
@@ -73,11 +80,17 @@ struct MConn {
     /// reset by the client while still in the backlog (the server later accepts a dead socket; what
     /// the client had sent before is still readable from it)
     reset_before_accept: bool,
+    /// Busy: the held command has been let go
+    busy_done: bool,
 }
 
 fn model_apply(conns: &mut Vec<MConn>, e: CEv) {
     match e {
-        CEv::Connect(k) => conns.push(MConn { kind: k, client_open: true, accepted: false, server_done: false, reset_before_accept: false }),
+        CEv::Connect(k) => conns.push(MConn { kind: k, client_open: true, accepted: false, server_done: false, reset_before_accept: false, busy_done: false }),
+        CEv::Finish(i) => {
+            let idx = conns.iter().enumerate().filter(|(_, c)| c.kind == Kind::Busy && c.accepted && !c.busy_done).map(|(j, _)| j).nth(i).unwrap();
+            conns[idx].busy_done = true;
+        }
         CEv::Close(i) | CEv::Reset(i) => {
             let idx = conns.iter().enumerate().filter(|(_, c)| c.client_open).map(|(j, _)| j).nth(i).unwrap();
             conns[idx].client_open = false;
@@ -95,6 +108,7 @@ fn settle(conns: &mut [MConn], n: usize) {
             if c.accepted && !c.server_done {
                 let ends = match c.kind {
                     Kind::Malformed | Kind::Panic | Kind::Aborted => true,
+                    Kind::Busy => c.busy_done && !c.client_open,
                     _ => !c.client_open,
                 };
                 if ends {
@@ -113,8 +127,28 @@ fn settle(conns: &mut [MConn], n: usize) {
     }
 }
 
-fn c15_enabled(conns: &[MConn], n: usize, max_conns: usize) -> Vec<CEv> {
+fn c15_enabled(conns: &[MConn], n: usize, max_conns: usize, busy: bool) -> Vec<CEv> {
     let mut v = vec![];
+    if busy {
+        // the plan with commands in flight: three kinds of connection, close / reset / finish
+        if conns.len() < max_conns {
+            for k in [Kind::Get, Kind::Busy, Kind::BigGet] {
+                v.push(CEv::Connect(k));
+            }
+        }
+        let open = conns.iter().filter(|c| c.client_open).count();
+        for i in 0..open {
+            v.push(CEv::Close(i));
+        }
+        if open > 0 {
+            v.push(CEv::Reset(0));
+        }
+        let held = conns.iter().filter(|c| c.kind == Kind::Busy && c.accepted && !c.busy_done).count();
+        for i in 0..held {
+            v.push(CEv::Finish(i));
+        }
+        return v;
+    }
     if conns.len() < max_conns {
         for k in [Kind::Get, Kind::Silent, Kind::Half, Kind::Malformed, Kind::Aborted] {
             v.push(CEv::Connect(k));
@@ -145,13 +179,13 @@ fn c15_enabled(conns: &[MConn], n: usize, max_conns: usize) -> Vec<CEv> {
     v
 }
 
-pub fn c15_words(n: usize, len: usize, max_conns: usize) -> Vec<Vec<CEv>> {
-    fn rec(conns: &mut Vec<MConn>, n: usize, len: usize, max_conns: usize, cur: &mut Vec<CEv>, out: &mut Vec<Vec<CEv>>) {
+pub fn c15_words(n: usize, len: usize, max_conns: usize, busy: bool) -> Vec<Vec<CEv>> {
+    fn rec(conns: &mut Vec<MConn>, n: usize, len: usize, max_conns: usize, busy: bool, cur: &mut Vec<CEv>, out: &mut Vec<Vec<CEv>>) {
         if cur.len() == len {
             out.push(cur.clone());
             return;
         }
-        let en = c15_enabled(conns, n, max_conns);
+        let en = c15_enabled(conns, n, max_conns, busy);
         if en.is_empty() {
             out.push(cur.clone());
             return;
@@ -161,13 +195,13 @@ pub fn c15_words(n: usize, len: usize, max_conns: usize) -> Vec<Vec<CEv>> {
             model_apply(conns, e);
             settle(conns, n);
             cur.push(e);
-            rec(conns, n, len, max_conns, cur, out);
+            rec(conns, n, len, max_conns, busy, cur, out);
             cur.pop();
             *conns = saved;
         }
     }
     let mut out = vec![];
-    rec(&mut vec![], n, len, max_conns, &mut vec![], &mut out);
+    rec(&mut vec![], n, len, max_conns, busy, &mut vec![], &mut out);
     out
 }
 
@@ -183,9 +217,18 @@ pub fn c15_case(dir: &Path, n: usize, word: &[CEv]) -> Result<String, V> {
     crate::iohook::accept_abort_clear();
     let srv = Srv::start(dir, &SrvCfg { max_connections: n, max_file_size: 1 << 31, gated: false }).map_err(mach)?;
     let get = cmd(&[b"GET", b"k"]);
+    let get_busy = cmd(&[b"GET", b"busy"]);
+    let get_big = cmd(&[b"GET", b"big"]);
     let mut model: Vec<MConn> = vec![];
     let mut cl: Vec<CConn> = vec![];
+    let has_busy = word.iter().any(|e| matches!(e, CEv::Connect(Kind::Busy) | CEv::Connect(Kind::BigGet)));
+    // held commands of Busy connections, in the order they reached the store (= order of acceptance)
+    let mut busy_released = 0usize;
     let r = (|| -> Result<String, V> {
+        if has_busy {
+            srv.handle.set(Bytes::from_static(b"big"), Bytes::from(vec![b'G'; 8 << 20])).map_err(|e| mach(e.to_string()))?;
+            srv.gate.hold_only(format!("get {}", hex(b"busy")));
+        }
         for (step, ev) in word.iter().enumerate() {
             let e0 = srv.epoch();
             let clones0 = srv.gate.clones();
@@ -199,6 +242,8 @@ pub fn c15_case(dir: &Path, n: usize, word: &[CEv]) -> Result<String, V> {
                             let _ = s.write_all(&get);
                         }
                         Kind::Silent => {}
+                        Kind::Busy => s.write_all(&get_busy).map_err(|e| mach(e.to_string()))?,
+                        Kind::BigGet => s.write_all(&get_big).map_err(|e| mach(e.to_string()))?,
                         Kind::Half => s.write_all(&get[..get.len() / 2]).map_err(|e| mach(e.to_string()))?,
                         Kind::Malformed => s.write_all(b"!this is not RESP\r\n").map_err(|e| mach(e.to_string()))?,
                         Kind::Panic => {
@@ -213,6 +258,28 @@ pub fn c15_case(dir: &Path, n: usize, word: &[CEv]) -> Result<String, V> {
                         }
                     }
                     cl.push(CConn { sock: Some(s), got_reply: false, saw_end: false, bytes: vec![] });
+                }
+                CEv::Finish(_) => {
+                    // the held commands reached the store in the order their connections were accepted
+                    let busy_ops_now = || -> Vec<usize> { srv.gate.snapshot().iter().enumerate().filter(|(_, o)| o.desc.starts_with(&format!("get {}", hex(b"busy")))).map(|(i, _)| i).collect() };
+                    let mut busy_ops = busy_ops_now();
+                    // which one: the i-th accepted unfinished Busy connection = the (released so far + i)-th
+                    // only if the earlier ones were released in order; map through the model instead
+                    let CEv::Finish(i) = *ev else { unreachable!() };
+                    let idx = model.iter().enumerate().filter(|(_, c)| c.kind == Kind::Busy && c.accepted && !c.busy_done).map(|(j, _)| j).nth(i).unwrap();
+                    // rank of that connection among all accepted Busy connections (by creation = acceptance order)
+                    let rank = model.iter().take(idx).filter(|c| c.kind == Kind::Busy && c.accepted).count();
+                    // (it may still be on its way if the states before were not judged)
+                    let t0 = Instant::now();
+                    while busy_ops.len() <= rank && t0.elapsed() < T20 {
+                        std::thread::sleep(Duration::from_micros(300));
+                        busy_ops = busy_ops_now();
+                    }
+                    let Some(&op) = busy_ops.get(rank) else { return Err(("served-connection-not-answered".into(), format!("the command of busy connection #{} has not reached the store", idx))) };
+                    model_apply(&mut model, *ev);
+                    srv.gate.release_before(op);
+                    srv.gate.release_after(op);
+                    busy_released += 1;
                 }
                 CEv::Close(i) | CEv::Reset(i) => {
                     let idx = model.iter().enumerate().filter(|(_, c)| c.client_open).map(|(j, _)| j).nth(i).unwrap();
@@ -230,9 +297,26 @@ pub fn c15_case(dir: &Path, n: usize, word: &[CEv]) -> Result<String, V> {
                 }
             }
             settle(&mut model, n);
+            // a connection whose client has gone while its command is still executing: whether its
+            // slot is already free is the server's choice (the pinned one keeps it until the command
+            // returns; giving it up at once would be as good) - nothing is demanded in such a state,
+            // the accounting is judged again once the command has returned
+            let ambiguous = model.iter().any(|c| c.kind == Kind::Busy && c.accepted && !c.busy_done && !c.client_open);
+            if ambiguous {
+                srv.quiesce(e0);
+                continue;
+            }
             check_c15_state(&srv, &model, &mut cl, e0, n, step, word)?;
         }
-        // after the word: everything closed, the full capacity must be available again
+        // after the word: every held command returns, everything is closed, the full capacity must be
+        // available again
+        let _ = busy_released;
+        if has_busy {
+            srv.gate.release_all();
+            for m in model.iter_mut() {
+                m.busy_done = true;
+            }
+        }
         for (i, c) in cl.iter_mut().enumerate() {
             model[i].client_open = false;
             c.sock = None;
@@ -333,6 +417,12 @@ fn check_c15_state(srv: &Srv, model: &[MConn], cl: &mut [CConn], e0: u64, n: usi
                 other => return Err(("served-connection-not-answered".into(), ctx(&format!("connection #{} should be served by now (fewer than {} handlers alive) but: {:?}", i, n, other.map(|x| x.0))))),
             }
         }
+        if m.accepted && m.kind == Kind::Busy && m.busy_done && !cl[i].got_reply {
+            match read_frame(s, T20) {
+                Ok((RFrame::Null, _)) => cl[i].got_reply = true,
+                other => return Err(("served-connection-not-answered".into(), ctx(&format!("busy connection #{}: its command has returned but the reply: {:?}", i, other.map(|x| x.0))))),
+            }
+        }
         if m.accepted && matches!(m.kind, Kind::Malformed | Kind::Panic | Kind::Aborted) && !cl[i].saw_end {
             let (b, how) = read_to_end(s, T20);
             cl[i].bytes.extend_from_slice(&b);
@@ -351,6 +441,10 @@ fn check_c15_state(srv: &Srv, model: &[MConn], cl: &mut [CConn], e0: u64, n: usi
         if cl[i].saw_end {
             continue;
         }
+        if m.kind == Kind::BigGet {
+            // its reply is being written into the socket buffers: nothing to learn from peeking
+            continue;
+        }
         let (b, eof, err) = try_read(s);
         if !m.accepted {
             if !b.is_empty() || eof || err.is_some() {
@@ -364,7 +458,7 @@ fn check_c15_state(srv: &Srv, model: &[MConn], cl: &mut [CConn], e0: u64, n: usi
     }
     // the number of GETs that reached the store equals the number of accepted GET connections
     // (a request that was received before the reset is still read from the dead socket and executed)
-    let want = model.iter().filter(|c| c.accepted && c.kind == Kind::Get).count();
+    let want = model.iter().filter(|c| c.accepted && matches!(c.kind, Kind::Get | Kind::Busy | Kind::BigGet)).count();
     if !srv.gate.wait_arrivals(want, T20) {
         return Err(("served-connection-not-answered".into(), ctx(&format!("{} commands reached the store within 6 s, the accept model says {}", srv.gate.n_ops(), want))));
     }
@@ -378,13 +472,15 @@ fn check_c15_state(srv: &Srv, model: &[MConn], cl: &mut [CConn], e0: u64, n: usi
 pub fn c15(job: &Job, sh: &mut Shard, t0: Instant) {
     let plans: Vec<(usize, usize, usize)> = match job.tier {
         // (N, word length, max connections per word)
-        Tier::Quick => vec![(1, 6, 3), (2, 6, 3), (3, 4, 4)],
-        Tier::Thorough => vec![(1, 7, 4), (2, 7, 4), (3, 6, 4), (2, 8, 4)],
+        Tier::Quick => vec![(1, 6, 3), (2, 6, 3), (3, 4, 4), (101, 5, 3), (102, 5, 3)],
+        Tier::Thorough => vec![(1, 7, 4), (2, 7, 4), (3, 6, 4), (2, 8, 4), (101, 7, 3), (102, 7, 4), (103, 6, 4)],
     };
     C15_CYCLES.store(job.tier.pick(4, 24), Ordering::SeqCst);
     let dir = job.scratch().join("store");
     for (n, len, maxc) in plans {
-        let words = c15_words(n, len, maxc);
+        // N + 100: the plan with commands in flight (kinds Get / Busy / BigGet, events close / reset / finish)
+        let (n, busy) = if n > 100 { (n - 100, true) } else { (n, false) };
+        let words = c15_words(n, len, maxc, busy);
         sh.count(&format!("words:N={},len={}", n, len), 0);
         for (i, w) in words.iter().enumerate() {
             if i % job.nshards != job.shard {
@@ -433,6 +529,8 @@ fn parse_cev(s: &str) -> Option<CEv> {
         "Malformed" => Some(Kind::Malformed),
         "Panic" => Some(Kind::Panic),
         "Aborted" => Some(Kind::Aborted),
+        "Busy" => Some(Kind::Busy),
+        "BigGet" => Some(Kind::BigGet),
         _ => None,
     };
     if let Some(r) = s.strip_prefix("Connect(") {
@@ -443,6 +541,9 @@ fn parse_cev(s: &str) -> Option<CEv> {
     }
     if let Some(r) = s.strip_prefix("Reset(") {
         return r.trim_end_matches(')').parse().ok().map(CEv::Reset);
+    }
+    if let Some(r) = s.strip_prefix("Finish(") {
+        return r.trim_end_matches(')').parse().ok().map(CEv::Finish);
     }
     None
 }
